@@ -148,6 +148,12 @@ def run(ctx):
             if impl[i + k].split(" ")[0] != base.split(" ")[0]:
                 viol.append({"input_hex": v.hex(), "input": v.decode("latin-1"), "what": "verdict changed under re-rendering (case / whitespace / line endings / comments): %s vs %s" % (base[:60], impl[i + k][:80]), "base_hex": b.hex()})
         i += 1 + len(vs)
+    # Parser objects in company: scripts that lack a `require` (invalid) parsed by a Parser that shares the process with others,
+    # one of which — or itself — has just parsed the complete script
+    import aliasing, prop_C07
+    pairs = [(c[0], c[4]) for c in prop_C07.removal_cases(ctx, 25 if ctx.tier == "quick" else 250)][: (60 if ctx.tier == "quick" else 600)]
+    for v in aliasing.parser_company(pairs):
+        viol.append(dict(v, what="verdict depends on other Parser objects: " + v["what"]))
     fresh, known = split_known("C01", viol, matcher)
     res = std_result(rec, info, fresh, known, RULE, {"wf_classes": cls, "variants": {"evaluations": len(texts)}}, diffs=diffs)
     res["evaluations"] += len(texts) + len(tmpl)
